@@ -32,6 +32,24 @@ var verifDir = func() string {
 	return "/verif"
 }()
 
+// repoDir is the tree under test: /repo unless VERIF_REPO names another
+// checkout (used to try a changed tree without touching /repo).
+var repoDir = func() string {
+	if v := os.Getenv("VERIF_REPO"); v != "" {
+		return v
+	}
+	return "/repo"
+}()
+
+// evidenceDir receives evidence/<id>.json and replays/: /verif/evidence unless
+// VERIF_EVIDENCE_DIR redirects it (trial runs against changed trees).
+var evidenceDir = func() string {
+	if v := os.Getenv("VERIF_EVIDENCE_DIR"); v != "" {
+		return v
+	}
+	return filepath.Join(verifDir, "evidence")
+}()
+
 type profSpec struct {
 	Profile string
 	Share   float64 // share of the search budget
@@ -148,7 +166,7 @@ func goEnv() []string {
 
 func treeHash() string {
 	h := sha256.New()
-	filepath.Walk("/repo", func(p string, fi os.FileInfo, err error) error {
+	filepath.Walk(repoDir, func(p string, fi os.FileInfo, err error) error {
 		if err != nil {
 			return nil
 		}
@@ -160,7 +178,8 @@ func treeHash() string {
 		}
 		if strings.HasSuffix(p, ".go") || strings.HasSuffix(p, "go.mod") {
 			b, _ := os.ReadFile(p)
-			fmt.Fprintf(h, "%s %d\n", p, len(b))
+			rel, _ := filepath.Rel(repoDir, p)
+			fmt.Fprintf(h, "/repo/%s %d\n", rel, len(b))
 			h.Write(b)
 		}
 		return nil
@@ -170,7 +189,7 @@ func treeHash() string {
 
 func build(scratch string) {
 	cmd := exec.Command(filepath.Join(verifDir, "build.sh"), scratch)
-	cmd.Env = goEnv()
+	cmd.Env = append(goEnv(), "REPO="+repoDir)
 	var out bytes.Buffer
 	cmd.Stdout, cmd.Stderr = &out, &out
 	if err := cmd.Run(); err != nil {
@@ -447,7 +466,7 @@ func check(prop string, spec propSpec, tier string, seed int64, scratch string) 
 	// minimise + verify unknown ones
 	nviol := 0
 	exit := 0
-	os.MkdirAll(filepath.Join(verifDir, "evidence", "replays"), 0o755)
+	os.MkdirAll(filepath.Join(evidenceDir, "replays"), 0o755)
 	for gi, g := range unknown {
 		if gi >= 3 {
 			fmt.Printf("... %d further distinct violation signatures not minimised\n", len(unknown)-3)
@@ -458,7 +477,7 @@ func check(prop string, spec propSpec, tier string, seed int64, scratch string) 
 		raw := filepath.Join(scratch, fmt.Sprintf("raw%d.json", gi))
 		os.WriteFile(raw, b, 0o644)
 		name := fmt.Sprintf("%s-%s-%d.json", prop, sanitizeName(g.sig), g.first.Seed)
-		final := filepath.Join(verifDir, "evidence", "replays", name)
+		final := filepath.Join(evidenceDir, "replays", name)
 		sb := "30s"
 		if tier == "thorough" {
 			sb = "120s"
@@ -548,8 +567,8 @@ func check(prop string, spec propSpec, tier string, seed int64, scratch string) 
 		"violations": nviol,
 	}
 	b, _ := json.MarshalIndent(ev, "", " ")
-	os.MkdirAll(filepath.Join(verifDir, "evidence"), 0o755)
-	if err := os.WriteFile(filepath.Join(verifDir, "evidence", prop+".json"), b, 0o644); err != nil {
+	os.MkdirAll(evidenceDir, 0o755)
+	if err := os.WriteFile(filepath.Join(evidenceDir, prop+".json"), b, 0o644); err != nil {
 		fatal(2, "write evidence: %v", err)
 	}
 	fmt.Printf("runs=%d distinct_nontrivial=%d steps=%d runs/h=%d simulated=%.1fs faults=%v wall=%.1fs (build %.1fs) violations=%d\n",
